@@ -79,6 +79,10 @@ Step(s, e, i) ==
     [] e.ev = "parsecb" -> IF e.run = "parserObs" THEN [s EXCEPT !.groups = Append(s.groups, e)] ELSE [s EXCEPT !.nrep = s.nrep + 1, !.repret = s.repret \o e.ret]
     [] e.ev = "eof" -> OnEOF(s, e, i)
     [] e.ev = "parsekept" -> RepIf(e.changed # 0, s, V("unit-handed-to-parser-changed-afterwards", s, [groups |-> e.groups, changed |-> e.changed]))
+    \* a run of more than 65 536 skipped packets in front of a few kept ones (counted by the harness, not listed): the predicate was
+    \* consulted for every packet and the kept packets are those of the filtered stream
+    [] e.ev = "longskip" -> RepIf(e.ncb # e.npkts \/ e.nret # e.nfiltered \/ ~e.same, s,
+                                   V("long-skipped-run", s, [npkts |-> e.npkts, ncb |-> e.ncb, nret |-> e.nret, nfiltered |-> e.nfiltered]))
     [] e.ev = "hang" -> Rep(s, V("no-end-of-stream", s, [run |-> e.run]))
     [] OTHER -> s
 
